@@ -702,3 +702,73 @@ mutant("c01-zip-longest-reversed", "C01", "itertools.py",
        rule="R01.4")
 neutral("c01-batched-tuple-display", ["C01", "C05", "C20"], "itertools.py",
         "                yield tuple(batch)\n        except StopAsyncIteration:", "                yield (*batch,)\n        except StopAsyncIteration:")
+
+# --------------------------------------------------------------------------- C05
+mutant("c05-takewhile-lookahead", "C05", "itertools.py",
+       "        async for item in async_iter:\n            if await predicate(item):\n                yield item\n            else:\n                break\n",
+       "        sentinel = object()\n        item = await anext(async_iter, sentinel)\n        while item is not sentinel and await predicate(item):\n            upcoming = await anext(async_iter, sentinel)\n            yield item\n            item = upcoming\n",
+       rule="R05.1", unit="itertools.takewhile")
+mutant("c05-enumerate-prefetch", "C05", "builtins.py",
+       "        async for item in item_iter:\n            yield count, item\n            count += 1\n",
+       "        pending = await anext(item_iter, __ANEXT_DEFAULT)\n        while pending is not __ANEXT_DEFAULT:\n            item = pending\n            pending = await anext(item_iter, __ANEXT_DEFAULT)\n            yield count, item\n            count += 1\n",
+       rule="R05.1", unit="builtins.enumerate")
+mutant("c05-filter-predicate-twice", "C05", "builtins.py",
+       "                if await function(item):\n                    yield item\n",
+       "                if await function(item) and await function(item):\n                    yield item\n", rule="R05.2")
+mutant("c05-merge-refill-before-yield", "C05", "heapq.py",
+       "                yield itr.head\n                if await itr.pull_head():\n",
+       "                head = itr.head\n                more = await itr.pull_head()\n                yield head\n                if more:\n",
+       rule="R05.3")
+mutant("c05-all-no-short-circuit", "C05", "builtins.py",
+       "    async with ScopedIter(iterable) as item_iter:\n        async for element in item_iter:\n            if not element:\n                return False\n    return True\n",
+       "    result = True\n    async with ScopedIter(iterable) as item_iter:\n        async for element in item_iter:\n            if not element:\n                result = False\n    return result\n",
+       rule="R05.4", unit="builtins.all")
+mutant("c05-any-exhausted-true", "C05", "builtins.py",
+       "            if element:\n                return True\n    return False\n", "            if element:\n                return True\n    return True\n",
+       rule="R05.4")
+mutant("c05-islice-stop-check-first", "C05", "itertools.py",
+       "            stop -= start + 1\n            async for idx, element in aenumerate(async_iter, start=0):\n                if not idx % step:\n                    yield element\n                if idx >= stop:\n                    return\n",
+       "            stop -= start\n            async for idx, element in aenumerate(async_iter, start=0):\n                if idx >= stop:\n                    return\n                if not idx % step:\n                    yield element\n",
+       rule="R05.5")
+mutant("c05-zip-strict-reversed", "C05", "builtins.py",
+       "            for tried, _aiter in _sync_builtins.enumerate(aiters):  # noqa: B007\n                items.append(await anext(_aiter))\n",
+       "            for tried, _aiter in _sync_builtins.enumerate(aiters[::-1]):  # noqa: B007\n                items.append(await anext(_aiter))\n            items.reverse()\n",
+       rule="R05.6")
+neutral("c05-takewhile-while-loop", ["C05", "C01", "C04", "C06"], "itertools.py",
+        "        async for item in async_iter:\n            if await predicate(item):\n                yield item\n            else:\n                break\n",
+        "        sentinel = object()\n        while True:\n            item = await anext(async_iter, sentinel)\n            if item is sentinel or not await predicate(item):\n                break\n            yield item\n")
+
+# --------------------------------------------------------------------------- C20
+mutant("c20-enumerate-collects", "C20", "builtins.py",
+       "        async for item in item_iter:\n            yield count, item\n            count += 1\n",
+       "        seen = []\n        async for item in item_iter:\n            seen.append(item)\n            yield count, item\n            count += 1\n",
+       rule="R20.1", unit="builtins.enumerate")
+mutant("c20-batched-never-cleared", "C20", "itertools.py",
+       "                batch.clear()\n", "                pass\n", rule="R20.1", unit="itertools.batched")
+mutant("c20-merge-heappush-in-loop", "C20", "heapq.py",
+       "                    _heapq.heapreplace(iter_heap, (itr, idx))\n",
+       "                    _heapq.heappush(iter_heap, (itr, idx))\n", rule="R20")
+mutant("c20-largest-unbounded-fill", "C20", "heapq.py",
+       "            async for index, item in a_zip(range(n), borrow(iterator))\n",
+       "            async for index, item in a_enumerate(borrow(iterator))\n", rule="R20.1")
+mutant("c20-largest-push-not-replace", "C20", "heapq.py",
+       "                _heapq.heapreplace(n_heap, (item_key, next_index, item))\n",
+       "                _heapq.heappush(n_heap, (item_key, next_index, item))\n", rule="R20")
+mutant("c20-zip-longest-values-hoisted", "C20", "itertools.py",
+       "        remaining = len(async_iters)\n        while True:\n            values: list[Any] = []\n",
+       "        remaining = len(async_iters)\n        values: list[Any] = []\n        while True:\n",
+       rule="R20.1", unit="itertools.zip_longest")
+mutant("c20-tee-nonremoving", "C20", "itertools.py",
+       "            yield buffer.popleft()\n", "            yield buffer[0]\n            buffer.rotate(-1)\n", rule="R20.2")
+mutant("c20-reduce-history", "C20", "functools.py",
+       "        async for head in item_iter:\n            value = await function(value, head)\n",
+       "        history = [value]\n        async for head in item_iter:\n            value = await function(value, head)\n            history.append(value)\n",
+       rule="R20.1", unit="functools.reduce")
+mutant("c20-min-max-lists-all", "C20", "builtins.py",
+       "        elif key is None:\n            async for item in item_iter:\n",
+       "        elif key is None:\n            rest = [item async for item in item_iter]\n            for item in rest:\n",
+       rule="R20.1", unit="builtins._min_max")
+mutant("c20-accumulate-dict-memo", "C20", "itertools.py",
+       "        async for head in item_iter:\n            value = await function(value, head)\n            yield value\n",
+       "        memo = {}\n        async for head in item_iter:\n            value = await function(value, head)\n            memo[id(head)] = head\n            yield value\n",
+       rule="R20.1", unit="itertools.accumulate")
